@@ -98,7 +98,7 @@ def _is_envelope_ctor(t, fi, repo):
 def typestate(ctx):
     R = ctx.report
     repo = ctx.repo
-    R.rule("C01-D1 refresh before serialise", 3, "every site that serialises a freshly built envelope model refreshes severable digests, then the manifest digest, first")
+    R.rule("C01-D1 refresh before serialise", 2, "every site that serialises a freshly built envelope model refreshes severable digests, then the manifest digest, first")
     R.rule("C01-D1b construction sites classified", 7, "every construction site of the full envelope model is either read-only or a checked serialising site")
     ev = Evaluator(repo, inline_depth=0)
     sites = 0
